@@ -17,6 +17,7 @@ warnings.filterwarnings("ignore")
 ID = "C13"
 TECHNIQUE = "property-based testing of a commuting diagram: the same generated annotation / def header is interpreted through the visitor (source), a string annotation, `from __future__ import annotations`, type_from_runtime(object) and type_from_runtime(string); all routes must yield equal Values / signatures, and a call must be judged the same in the defining and in an importing module"
 RULE = (
+    "shadowing: classes named like builtins used in quoted and unquoted annotations, judged from the defining and an importing module; "
     "attribute declarations: for every annotation T of the depth-1 list, a class with attributes declared T, ClassVar[T], Final[T], typing.ClassVar[T], typing_extensions.Final[T] is read through an instance in four routes (class in the checked module, annotations quoted, class imported, class imported from a module with `from __future__ import annotations`); every value must equal the plain T of the checked module. "
     "annotation expressions E from the typing grammar (classes, Optional/Union/|, generics old and new style, "
     "tuple forms, Literal, type[], Callable[[...], R] / Callable[..., R], Annotated, NewType, TypedDict, Protocol, "
@@ -422,6 +423,78 @@ def judge_classvars(types, col=None):
     return fails
 
 
+# ----------------------------------------------------------------- names that shadow builtins
+
+SHADOW_NAMES = ["TimeoutError", "ValueError", "range", "dict", "property", "Exception", "object", "type", "bytes", "id", "input"]
+
+
+def judge_shadow(names, future, col=None):
+    """A module defines classes whose names shadow builtins and uses them in quoted and unquoted
+    annotations; calls are judged in the defining module and in an importing module.  Expected: an
+    instance of the module's class is accepted, an instance of the builtin of the same name (or 1) is
+    not - whatever the route."""
+    import builtins as _b
+
+    lib = (["from __future__ import annotations"] if future else []) + ["import builtins"]
+    for n in names:
+        lib += [f"class {n}:", "    pass", f"def q_{n}(x: \"{n}\") -> None: ...", f"def u_{n}(x: {n}) -> None: ...",
+                f"def o_{n}(x: \"Optional[{n}]\" = None) -> None: ..."]
+    lib.insert(1 if future else 0, "from typing import Optional")
+    calls, cmap = [], {}
+    for n in names:
+        for fn in ("q", "u", "o"):
+            calls.append(f"    {fn}_{n}(K_{n}())")
+            cmap[len(calls)] = (n, fn, "own", True)
+            calls.append(f"    {fn}_{n}(1.5)")
+            cmap[len(calls)] = (n, fn, "float", False)
+            if isinstance(getattr(_b, n, None), type) and n not in ("object", "type"):
+                calls.append(f"    {fn}_{n}(B_{n})")
+                cmap[len(calls)] = (n, fn, "builtin-instance", False)
+    name = "pvmod_c13_shadow" + ("_f" if future else "")
+    lib_src = "\n".join(lib) + "\n"
+    # in the defining module the classes are reached through aliases K_<n>; instances of the builtins through B_<n>
+    alias = [f"K_{n} = {n}" for n in names]
+    binst = []
+    for n in names:
+        if isinstance(getattr(_b, n, None), type) and n not in ("object", "type"):
+            ctor = {"range": "builtins.range(3)", "bytes": "builtins.bytes(2)", "property": "builtins.property()"}.get(n, f"builtins.{n}()")
+            binst.append(f"B_{n} = {ctor}")
+    here_src = lib_src + "\n".join(alias + binst) + "\ndef body():\n" + "\n".join(calls) + "\n"
+    off_here = len(lib_src.split("\n")) - 1 + len(alias) + len(binst) + 1
+    mod = sut.make_named_module(lib_src, name)
+    fails = []
+    try:
+        imp = ["import builtins", f"import {name} as L"] + [f"from {name} import q_{n}, u_{n}, o_{n}" for n in names] \
+            + [f"K_{n} = L.{n}" for n in names] + binst
+        off_imp = len(imp) + 1
+        imp_src = "\n".join(imp) + "\ndef body():\n" + "\n".join(calls) + "\n"
+        verdicts = {}
+        for tag, src, off in (("defining", here_src, off_here), ("importing", imp_src, off_imp)):
+            res = sut.check_source(src, checker=shared())
+            if res.raised is not None:
+                raise res.raised
+            bad = {d.lineno - off for d in res.diags if d.code in ("incompatible_argument", "incompatible_call") and d.lineno}
+            internal = [d for d in res.diags if d.code == "internal_error"]
+            if internal:
+                fails.append((f"shadow-internal-error|{tag}", internal[0].description[-200:], {"shadow": names, "future": future}))
+                continue
+            for k, (n, fn, what, ok) in cmap.items():
+                verdicts[(tag, n, fn, what)] = (k not in bad, ok)
+        for (tag, n, fn, what), (accepted, ok) in sorted(verdicts.items()):
+            if col is not None:
+                col.case(nontrivial_id=("shadow", tag, n, fn, what, future), label=["route:shadow", f"module:{tag}"])
+            if accepted != ok:
+                spelled = {"q": "quoted", "u": "unquoted", "o": "quoted Optional"}[fn]
+                fails.append((f"shadow-builtin|{tag}|{spelled}|{what}|{'accepted' if accepted else 'rejected'}",
+                              f"module-level class `{n}` shadows the builtin; parameter annotated {spelled} `{n}` "
+                              f"({'with' if future else 'without'} future annotations), call judged in the {tag} module: "
+                              f"argument `{what}` is {'accepted' if accepted else 'rejected'}, expected {'accepted' if ok else 'rejected'}",
+                              {"shadow": [n], "future": future}))
+        return fails
+    finally:
+        sut.forget_module(mod)
+
+
 # ----------------------------------------------------------------- shards
 
 
@@ -432,6 +505,7 @@ def shards(tier, seed):
     out += [{"mode": "headers", "index": i, "modules": 20 if tier == "quick" else 400} for i in range(3)]
     out += [{"mode": "import", "index": i, "modules": 12 if tier == "quick" else 300} for i in range(2)]
     out += [{"mode": "classvars", "index": i, "of": 2} for i in range(2)]
+    out.append({"mode": "shadow"})
     return out
 
 
@@ -450,6 +524,11 @@ def run_shard(spec):
                 break
         col.extra["exhaustive"] = not col.budget_hit
         col.extra["exhaustive_bounds"] = ["all annotation expressions of constructor depth <= 2 from pv/universe.py plus the EXTRA_TYPES list"]
+        return col.result()
+    if mode == "shadow":
+        for future in (False, True):
+            for key, what, case in judge_shadow(SHADOW_NAMES, future, col):
+                col.fail(key, what, case)
         return col.result()
     if mode == "classvars":
         types = [t for t in universe.types_depth1() + EXTRA_TYPES if universe.valid_type_src(t)
@@ -499,7 +578,9 @@ def run_shard(spec):
 
 
 def replay_all(case):
-    if "classvar_type" in case:
+    if "shadow" in case:
+        fails = judge_shadow(case["shadow"], case.get("future", False))
+    elif "classvar_type" in case:
         fails = judge_classvars([case["classvar_type"]])
     elif "type" in case:
         fails = judge_annotations([case["type"]])
